@@ -18,7 +18,7 @@ ASSUMPTIONS = [
 def only_default(tier): return [DEFAULT_CFG]
 def cfg_matrix(tier): return QUICK_MATRIX if tier == "quick" else full_matrix()
 def scalar_cfgs(tier):
-    return [DEFAULT_CFG, BuildCfg("w32", w64=0)] if tier == "quick" else [DEFAULT_CFG, BuildCfg("w32", w64=0), BuildCfg("neutral64", le=0, vec128=0, vec256=0, unaligned=0), BuildCfg("neutral32", w64=0, le=0, vec128=0, vec256=0, unaligned=0), BuildCfg("clang-O2", cc="clang-14", opt="-O2"), BuildCfg("gcc-O0", opt="-O0")]
+    return [DEFAULT_CFG, BuildCfg("w32", w64=0)] if tier == "quick" else [DEFAULT_CFG, BuildCfg("w32", w64=0), BuildCfg("neutral64", le=0, vec128=0, vec256=0, unaligned=0), BuildCfg("neutral32", w64=0, le=0, vec128=0, vec256=0, unaligned=0), BuildCfg("clang-O2", cc="clang-14", opt="-O2"), BuildCfg("gcc-O0", opt="-O0"), BuildCfg("simd-aligned", unaligned=0)]
 def all_backends(tier): return ["generic", "vec128", "vec256"]
 def one_backend(tier): return ["vec256"]
 
@@ -34,7 +34,7 @@ def s_c04(rng, tier, st): return gen_ops.gen_tweak(rng, N(tier, 8, 150), stats=s
 def s_c05(rng, tier, st): return gen_ops.gen_ctr(rng, N(tier, 10, 150), stats=st)
 def s_c06(rng, tier, st):
     return gen_ops.gen_ctr(rng, N(tier, 6, 80), stats=st) + gen_ops.gen_ctr_midstream(rng, N(tier, 6, 80), stats=st) + gen_ops.gen_parallel(rng, N(tier, 3, 30), stats=st) + \
-           gen_ops.gen_api_walk(rng, N(tier, 6, 60), 25, invalid_rate=0.25, stats=st)
+           gen_ops.gen_api_walk(rng, N(tier, 6, 60), 25, invalid_rate=0.25, stats=st) + gen_ops.gen_invalid_midstream(rng, N(tier, 4, 40), stats=st)
 def s_c07(rng, tier, st): return gen_ops.gen_parallel(rng, N(tier, 8, 100), stats=st)
 def s_c10(rng, tier, st): return gen_ops.gen_keylen(rng, stats=st, junk_patterns=(0xA5, 0x00) if tier == "quick" else (0xA5, 0x00, 0xFF, 0x3C))
 def s_c14(rng, tier, st): return gen_ops.gen_invalid_midstream(rng, N(tier, 6, 60), stats=st) + gen_ops.gen_api_walk(rng, N(tier, 30, 400), 30, invalid_rate=0.35, stats=st) + gen_ops.gen_tweak(rng, N(tier, 2, 20), stats=st)
